@@ -51,6 +51,7 @@ def h_pdu(ctx, kind, cfg, var, twin=False):
                                                  u.pdu_header.crc_flag == b.v["crc"], u.pdu_header.file_flag == b.v["large"]),
                             [(lambda o=o: b.cls.unpack(o)) for o in other_packets(kind, cfg, var)])
     pack_hands_out_fresh_buffers(ctx, pdu.pack, ref)
+    decoded_object_owns_its_data(ctx, b.cls.unpack, b.ref, lambda x: sym_and(b.check(x), x == pdu, x.pack() == raw))
     if twin:
         ctx.holds("twin", raw != ref)
 
